@@ -122,7 +122,7 @@ def gen_case(rng, tier, index):
         mode = rng.choice(["one", "small", "mixed", "big", "lines"])
         chunkings.append([mode, rng.randrange(1 << 30)])
     # every 8th case also runs the train end to end through a booted machine's BCP receive path
-    return {"msgs": msgs, "train": train, "chunkings": chunkings, "e2e": (index % 8 == 0) and (1 + index % 3)}
+    return {"msgs": msgs, "train": train, "chunkings": chunkings, "e2e": (index % 8 == 0) and (1 + (index // 8) % 3)}
 
 
 # ---------------------------------------------------------------------------------------------
@@ -284,7 +284,13 @@ def _run_e2e(case, clauses, viol, obs, shapes):
     clauses.setdefault("dispatch_order_e2e", 0)
     clauses.setdefault("payload_identity_e2e", 0)
     try:
-        with VMachine("modes: []\n", use_bcp=True, mock_loop=mock_loop, patches={"bcp": {"servers": []}}) as vm:
+        # every second end-to-end case runs with debug logging of the BCP interface (a configuration, not a different
+        # behaviour: what is dispatched must not depend on the log level)
+        cfg = "modes: []\n"
+        if case["e2e"] == 2:
+            cfg += "logging:\n  console:\n    bcp_interface: full\n  file:\n    bcp_interface: full\n"
+            obs["e2e_with_debug_logging"] = obs.get("e2e_with_debug_logging", 0) + 1
+        with VMachine(cfg, use_bcp=True, mock_loop=mock_loop, patches={"bcp": {"servers": []}}) as vm:
             m = vm.machine
             trace = []
             got_payloads = {}
